@@ -238,6 +238,33 @@ def scen_estimator(env, cfg):
                   env.And(env.eq(th2, th + sh, scale=5), env.eq(ber2, ber, scale=1)))
 
 
+def scen_estimator_history(env, cfg):
+    """The threshold / estimated BER of an eye depend only on (mu1-mu0, s0, s1, M): not on what was asked of the same eye object before.
+    Concrete eye statistics (the 1000-point grid search with symbolic levels exceeds the solver budget, see OUTSIDE): the clause is a
+    statement about call histories on one eye object, evaluated on the model and replayed on the real library."""
+    P = env.lib.ppm
+    mu0 = env.const(cfg['mu0'])
+    d, s0, s1 = env.const(cfg['d']), env.const(cfg['s0']), env.const(cfg['s1'])
+    M1, M2 = cfg['M1'], cfg['M2']
+    e = _eye(env, mu0, mu0 + d, s0, s1)
+    if cfg['first'] == 'threshold':
+        P.THRESHOLD_EST(e, M1)
+    else:
+        P.BER_analizer('estimator', eye_obj=e, M=M1, decision=cfg['first'])
+    th = P.THRESHOLD_EST(e, M2)
+    fresh = _eye(env, mu0, mu0 + d, s0, s1)
+    th_f = P.THRESHOLD_EST(fresh, M2)
+    env.check(f'THRESHOLD_EST(eye, {M2}) is the same on an eye that was queried with M={M1} before and on a fresh eye with the same statistics',
+              env.eq(th, th_f, scale=5))
+    b = P.BER_analizer('estimator', eye_obj=e, M=M2, decision='hard')
+    b_f = P.BER_analizer('estimator', eye_obj=_eye(env, mu0, mu0 + d, s0, s1), M=M2, decision='hard')
+    env.check("BER_analizer('estimator', hard) likewise", env.eq(b, b_f, scale=1))
+    z = _eye(env, env.const('0.0'), d, s0, s1)
+    th_z = P.THRESHOLD_EST(z, M2)
+    env.check('the threshold moves with the levels: threshold(mu0, mu0+d) == mu0 + threshold(0, d)', env.eq(th, mu0 + th_z, scale=5))
+    env.check('the estimated threshold lies in [mu0, mu1]', env.And(env.le(mu0, th, 5), env.le(th, mu0 + d, 5)))
+
+
 def scen_theory(env, cfg):
     kind = cfg['kind']
     if kind == 'reject':
@@ -298,6 +325,10 @@ def configs(tier):
     out.append(('estimator-ook', scen_estimator, dict(mod='ook', shift=False), {'validate': 2}))
     for M in ((4,) if q else (2, 4, 16)):
         out.append((f'estimator-ppm{M}', scen_estimator, dict(mod='ppm', M=M, shift=False), {'validate': 2}))
+    for M1, M2, first in ((4, 64, 'threshold'), (2, 256, 'hard'), (64, 4, 'soft')) if q else \
+            ((4, 64, 'threshold'), (2, 256, 'hard'), (64, 4, 'soft'), (8, 16, 'threshold'), (256, 2, 'hard'), (4, 8, 'soft')):
+        out.append((f'estimator-history-ppm{M1}-then-{M2}-{first}', scen_estimator_history,
+                    dict(M1=M1, M2=M2, first=first, mu0='0.25', d='1.0', s0='0.1', s1='0.15'), {'validate': 1}))
     out.append(('theory-reject', scen_theory, dict(kind='reject'), {}))
     out.append(('theory-ook', scen_theory, dict(kind='ook'), {'validate': 1}))
     for M in ((4,) if q else (2, 4, 8)):
